@@ -84,7 +84,7 @@ fn log_json(log: &[(&'static str, usize)]) -> Value {
 }
 
 fn describe() {
-    for name in families::FAMILIES {
+    for name in families::FAMILIES.iter().chain(families::LARGE_FAMILIES.iter()) {
         let mut c = Composer::initialized();
         let p = families::family(name, 0).unwrap();
         if run_program(&p, &mut c, None).is_err() {
@@ -129,7 +129,9 @@ fn run(scen_path: &str, expect_path: &str) {
         let key = format!("{}|{}|{}|{}", fe_hex(&tau), fe_hex(&sg), fe_hex(&sh), family);
         let keys = cache.entry(key).or_insert_with(|| {
             let mut rng = ScriptRng::new(1, vec![tau, sg, sh]);
-            let pp = guarded(|| PublicParameters::setup(1 << 11, &mut rng))
+            // families beyond the 2^12 switch of the FFT / parallel paths need a larger SRS
+            let cap = if families::LARGE_FAMILIES.contains(&family) { 1 << 13 } else { 1 << 11 };
+            let pp = guarded(|| PublicParameters::setup(cap, &mut rng))
                 .map_err(|p| format!("setup panic: {p}"))?
                 .map_err(|e| format!("setup: {e:?}"))?;
             if !log_ok(&rng.log, 3) {
